@@ -221,11 +221,16 @@ let genuine = [(c_sig, k_sig); (c_enc, k_enc)]
 let cr_t = TRand r_client and sr_t = TRand r_server
 
 (* malicious server against the verifying client model *)
-let run_as (suite : string) (attack : string) (cfgs : string) : string =
+let run_as_gm (suite : string) (attack : string) (cfgs : string) : string =
   let cfg = parse_cfg cfgs in
   let cert = if flag cfg "cc" then Some (c_auth, k_auth) else None in
   let auth = if flag cfg "cr" then 1 else 0 in
-  let trusted = match attack with "expired" | "notyet" | "wrongname" -> [] | _ -> [c_sig; c_enc] in
+  let ends_with suf = let ls = String.length suf and la = String.length attack in la > ls && String.sub attack (la - ls) ls = suf in
+  let trusted = match attack with
+    | "expired" | "notyet" | "wrongname" -> []
+    | _ when ends_with "_enc" && not (attack = "untrusted_enc" || attack = "mimic_root_enc" || attack = "rsa_enc") -> [c_sig]   (* the encryption certificate alone fails Verify *)
+    | _ when ends_with "_sig" && not (attack = "untrusted_sig" || attack = "mimic_root_sig" || attack = "rsa_sig") -> [c_enc]   (* the signing certificate alone *)
+    | _ -> [c_sig; c_enc] in
   let certs = match attack with
     | "sigkey" -> [(c_sig, k_other); (c_enc, k_enc)]
     | "enckey" -> [(c_sig, k_sig); (c_enc, k_other)]
@@ -270,7 +275,7 @@ let rec subst_term (o : term) (nw : term) (t : term) : term =
   | _ -> t
 
 (* malicious client against the server model *)
-let run_ac (suite : string) (attack : string) (auth : string) : string =
+let run_ac_gm (suite : string) (attack : string) (auth : string) : string =
   let cert = match attack with
     | "honest_nocert" | "nocertmsg" -> None
     | "untrusted_cert" | "mimic_root_cert" -> Some (c_uauth, k_uauth)   (* not issued by the client CA, whatever names it copies *)
@@ -300,6 +305,90 @@ let run_ac (suite : string) (attack : string) (auth : string) : string =
   let s = c08_server ~auth:(int_of_string auth) ~certs:genuine ~client_trusted in
   let (_, (_, sstat)) = pair_run_t tc id_t c s in
   show_pstat sstat
+
+(* ---- C08 on the standard-TLS path: the same catalogue against the TLS client / server models ------------------------ *)
+let k_ursa = n 114 and k_urauth = n 115
+let c_ursa = TCert (n 14, kIND_RSA, n 3, k_ursa)
+let c_urauth = TCert (n 15, kIND_RSA, n 3, k_urauth)
+let is_gm_suite (suite : string) = (suite = "e013" || suite = "e053" || suite = "e011" || suite = "e051")
+
+let tls_client ~suite ~cert ~trusted ~verify : cconfig =
+  { c_gm = false; c_maxv = n 771; c_suites = [hexn suite]; c_verify = verify; c_trusted = trusted; c_cert = cert;
+    c_cache = false; c_session = None; c_rand = r_client; c_pms = r_pms; c_sid = r_sid; c_eph = r_ceph }
+let tls_server ~auth ~cert ~client_trusted : sconfig =
+  { (c08_server ~auth ~certs:[] ~client_trusted) with s_mode = TLSOnly; s_tls_cert = Some cert }
+
+let run_as_tls (suite : string) (attack : string) (cfgs : string) : string =
+  let cfg = parse_cfg cfgs in
+  let cert = if flag cfg "cc" then Some (c_rsaauth, k_rsaauth) else None in
+  let auth = if flag cfg "cr" then 1 else 0 in
+  let trusted = match attack with "expired" | "notyet" | "wrongname" -> [] | _ -> [c_rsa] in
+  let scert = match attack with
+    | "sigkey" -> (c_rsa, k_other) | "untrusted" | "mimic_root" -> (c_ursa, k_ursa) | "sm2cert" -> (c_sig, k_sig) | _ -> (c_rsa, k_rsa) in
+  let ts (i : input) : input list =
+    match attack, i with
+    | "skx_rnd", IHs (MServerKeyExchange (l, p, _)) -> [IHs (MServerKeyExchange (l, p, TSig (k_rsa, skx_payload (TRand (n 98)) (TRand (n 99)) p)))]
+    | "skx_cr", IHs (MServerKeyExchange (l, p, _)) -> [IHs (MServerKeyExchange (l, p, TSig (k_rsa, skx_payload (TRand (n 98)) sr_t p)))]
+    | "skx_sr", IHs (MServerKeyExchange (l, p, _)) -> [IHs (MServerKeyExchange (l, p, TSig (k_rsa, skx_payload cr_t (TRand (n 99)) p)))]
+    | "skx_key2", IHs (MServerKeyExchange (l, p, _)) -> [IHs (MServerKeyExchange (l, p, TSig (k_other, skx_payload cr_t sr_t p)))]
+    | "skx_omit", IHs (MServerKeyExchange _) -> []
+    | "skx_junk", IHs (MServerKeyExchange (l, p, _)) -> [IHs (MServerKeyExchange (l, p, TJunk (n 7)))]
+    | "skx_junk", IHs (MCertificate _) when (suite = "002f" || suite = "009c") ->      (* RSA key exchange: the flight has no ServerKeyExchange *)
+      [i; IHs (MServerKeyExchange (true, TJunk (n 7), TJunk (n 7)))]
+    | "skx_unexpected", IHs (MCertificate _) ->
+      [i; IHs (MServerKeyExchange (true, TPub r_seph, TSig (k_rsa, skx_payload cr_t sr_t (TPub r_seph))))]
+    | ("fin_bad" | "fin_label"), IHs (MFinished _) -> [IHs (MFinished (TJunk (n 10)))]
+    | _ -> [i] in
+  let c = tls_client ~suite ~cert ~trusted ~verify:true in
+  let s = tls_server ~auth ~cert:scert ~client_trusted:[c_rsaauth] in
+  let ((_, cstat), _) = pair_run_t id_t ts c s in
+  show_pstat cstat
+
+let run_ac_tls (suite : string) (attack : string) (auth : string) : string =
+  let cert = match attack with
+    | "honest_nocert" | "nocertmsg" -> None
+    | "untrusted_cert" | "mimic_root_cert" -> Some (c_urauth, k_urauth)
+    | "chain_key2" -> Some (c_rsaauth, k_urauth)
+    | _ -> Some (c_rsaauth, k_rsaauth) in
+  let client_trusted = match attack with "expired_cert" -> [] | _ -> [c_rsaauth] in
+  let one = enc_hmsg (MCertificate [c_rsaauth]) and two = enc_hmsg (MCertificate [c_rsaauth; c_urauth]) in
+  let chain = (attack = "chain_honest" || attack = "chain_key2") in
+  let tc (i : input) : input list =
+    match attack, i with
+    | _, IHs (MCertificate [c]) when chain && term_eqb c c_rsaauth -> [IHs (MCertificate [c_rsaauth; c_urauth])]
+    | _, IHs (MCertificateVerify (a, sg)) when chain -> [IHs (MCertificateVerify (a, subst_term one two sg))]
+    | _, IHs (MFinished vd) when chain -> [IHs (MFinished (subst_term one two vd))]
+    | "nocertmsg", IHs (MCertificate _) -> []
+    | "cv_omit", IHs (MCertificateVerify _) -> []
+    | "cv_key2", IHs (MCertificateVerify (a, TSig (_, p))) -> [IHs (MCertificateVerify (a, TSig (k_other, p)))]
+    | "cv_junk", IHs (MCertificateVerify (a, _)) -> [IHs (MCertificateVerify (a, TJunk (n 9)))]
+    | ("cv_replay" | "cv_early"), IHs (MCertificateVerify (a, _)) -> [IHs (MCertificateVerify (a, TSig (k_rsaauth, THash (TJunk (n 5)))))]
+    | "ckx_key2", IHs (MClientKeyExchange (l, _)) -> [IHs (MClientKeyExchange (l, TEnc (TPub k_other, TPMS (n 77))))]
+    | "ckx_replay", IHs (MClientKeyExchange (l, _)) -> [IHs (MClientKeyExchange (l, TEnc (TPub k_rsa, TPMS (n 88))))]
+    | ("fin_bad" | "fin_label"), IHs (MFinished _) -> [IHs (MFinished (TJunk (n 10)))]
+    | _ -> [i] in
+  let c = tls_client ~suite ~cert ~trusted:[c_rsa] ~verify:false in
+  let s = tls_server ~auth:(int_of_string auth) ~cert:(c_rsa, k_rsa) ~client_trusted in
+  let (_, (_, sstat)) = pair_run_t tc id_t c s in
+  show_pstat sstat
+
+let run_as suite attack cfgs = if is_gm_suite suite then run_as_gm suite attack cfgs else run_as_tls suite attack cfgs
+let run_ac suite attack auth = if is_gm_suite suite then run_ac_gm suite attack auth else run_ac_tls suite attack auth
+
+(* AV: honest pairs; VerifiedChains is set on the client iff it completed with verification on, on the server iff it
+   completed under VerifyClientCertIfGiven / RequireAndVerifyClientCert with a certificate presented *)
+let run_av (suite : string) (vf : string) (auth : string) (cc : string) : string =
+  let a = int_of_string auth in
+  let (c, s) =
+    if is_gm_suite suite then
+      ({ (c08_client ~suite ~cert:(if cc = "1" then Some (c_auth, k_auth) else None) ~trusted:[c_sig; c_enc]) with c_verify = (vf = "1") },
+       c08_server ~auth:a ~certs:genuine ~client_trusted:[c_auth])
+    else
+      (tls_client ~suite ~cert:(if cc = "1" then Some (c_rsaauth, k_rsaauth) else None) ~trusted:[c_rsa] ~verify:(vf = "1"),
+       tls_server ~auth:a ~cert:(c_rsa, k_rsa) ~client_trusted:[c_rsaauth]) in
+  let ((_, cstat), (_, sstat)) = pair_run_t id_t id_t c s in
+  let cvc = (cstat = PDone && vf = "1") and svc = (sstat = PDone && a >= 3 && cc = "1") in
+  Printf.sprintf "%s %s %d %d" (show_pstat cstat) (show_pstat sstat) (if cvc then 1 else 0) (if svc then 1 else 0)
 
 (* man in the middle between the two honest models: one field of one message rewritten *)
 let hs_type = function
@@ -400,12 +489,22 @@ let nth_flight fl k = try List.nth fl k with _ -> ""
 let run_r (victim : string) (suite : string) (cfgs : string) (chv : string) (packing : string) : string =
   let cfg = parse_cfg cfgs in
   let fl = flights packing in
+  let tls = (victim = "st" || victim = "ct") in
+  let cert = if flag cfg "cc" then Some (c_auth, k_auth) else None in
+  (* the two honest models: GMSSL, or standard TLS with the one RSA-key-exchange suite of the case *)
+  let ccfg =
+    if tls then
+      { c_gm = false; c_maxv = hexn chv; c_suites = [hexn suite]; c_verify = true; c_trusted = server_trusted; c_cert = None;
+        c_cache = flag cfg "tk"; c_session = None; c_rand = r_client; c_pms = r_pms; c_sid = r_sid; c_eph = r_ceph }
+    else { (c08_client ~suite ~cert ~trusted:[c_sig; c_enc]) with c_cache = flag cfg "tk" } in
+  let auth = if victim = "sg" || victim = "sa" || victim = "st" then int_of_string (get cfg "auth") else (if flag cfg "cr" then 1 else 0) in
+  let scfg =
+    { (c08_server ~auth ~certs:(if tls then [] else genuine) ~client_trusted:[c_auth]) with
+      s_tickets = flag cfg "tk";
+      s_mode = (match victim with "sa" -> AutoSwitch | "st" | "ct" -> TLSOnly | _ -> GMOnly);
+      s_tls_cert = (if tls then Some (c_rsa, k_rsa) else None) } in
   match victim with
-  | "sg" | "sa" ->
-    let cert = if flag cfg "cc" then Some (c_auth, k_auth) else None in
-    let ccfg = { (c08_client ~suite ~cert ~trusted:[c_sig; c_enc]) with c_cache = flag cfg "tk" } in
-    let scfg = { (c08_server ~auth:(int_of_string (get cfg "auth")) ~certs:genuine ~client_trusted:[c_auth]) with
-                 s_tickets = flag cfg "tk"; s_mode = (if victim = "sa" then AutoSwitch else GMOnly) } in
+  | "sg" | "sa" | "st" ->
     let c0 = client_init ccfg in
     (* first flight: the ClientHello, with the scripted client_version *)
     let outs0 = List.map (fun o -> match o with
@@ -423,10 +522,6 @@ let run_r (victim : string) (suite : string) (cfgs : string) (chv : string) (pac
         | _ -> "err")    (* the scripted client gives up: the server sees the stream end *)
      | st -> show_pstat st)
   | _ ->
-    let cert = if flag cfg "cc" then Some (c_auth, k_auth) else None in
-    let ccfg = { (c08_client ~suite ~cert ~trusted:[c_sig; c_enc]) with c_cache = flag cfg "tk" } in
-    let scfg = { (c08_server ~auth:(if flag cfg "cr" then 1 else 0) ~certs:genuine ~client_trusted:[c_auth]) with
-                 s_tickets = flag cfg "tk" } in
     let c0 = client_init ccfg in
     let (s1, sstat1) = feed (server_step scfg) server_init PRunning (List.map to_input c0.cs_out) in
     (match sstat1 with
@@ -596,6 +691,7 @@ let handle (f : string array) : string =
   | "AS" -> run_as f.(2) f.(3) f.(4)
   | "AC" -> run_ac f.(2) f.(3) f.(4)
   | "AM" -> run_am f.(2) f.(3) f.(4) f.(5) f.(6) f.(8)
+  | "AV" -> run_av f.(2) f.(3) f.(4) f.(5)
   | "PA" -> run_pa f.(2) f.(3) f.(4) f.(5)
   | "PD" -> run_pd f
   | "PE" -> run_pe f
